@@ -11,19 +11,45 @@ from vlib import KESTREL
 PROMPTS = [b"key: ", b"password: ", b"Password: ", b"Key name: "]
 
 
-def run_tty(args, lines, env=None, timeout=60, interrupt=True):
+def _spawn(args, e, controlling):
+    """controlling: the pseudo-terminal is the child's controlling terminal (so /dev/tty opens: prompt_password_tty).
+    Otherwise the child has a session of its own WITHOUT a controlling terminal and the pseudo-terminal only as its
+    stdin/stdout/stderr: /dev/tty does not open and ask_pass falls back to prompt_password_stdin."""
+    if controlling:
+        return pty.fork()
+    master, slave = pty.openpty()
+    pid = os.fork()
+    if pid == 0:
+        try:
+            os.setsid()                      # new session; the slave was opened before, so it does not become controlling
+            os.close(master)
+            for fd in (0, 1, 2):
+                os.dup2(slave, fd)
+            if slave > 2:
+                os.close(slave)
+            os.execve(KESTREL, [KESTREL] + list(args), e)
+        finally:
+            os._exit(127)
+    os.close(slave)
+    return pid, master
+
+
+def run_tty(args, lines, env=None, timeout=60, interrupt=True, controlling=True):
     """lines: what to type, one per prompt, in order.  When they run out and a prompt is still showing: Ctrl-C
     (interrupt).  (Ctrl-D is not used: passterm's read_line spins forever on end of input, see DESIGN.md 14.)
     Returns (exit status, transcript bytes, number of prompts answered)."""
     e = {"PATH": "/usr/bin:/bin", "HOME": "/nonexistent", "LANG": "C.UTF-8", "TERM": "dumb"}
     if env:
         e.update(env)
-    pid, fd = pty.fork()
-    if pid == 0:
-        try:
-            os.execve(KESTREL, [KESTREL] + list(args), e)
-        finally:
-            os._exit(127)
+    if controlling:
+        pid, fd = pty.fork()
+        if pid == 0:
+            try:
+                os.execve(KESTREL, [KESTREL] + list(args), e)
+            finally:
+                os._exit(127)
+    else:
+        pid, fd = _spawn(args, e, False)
     out = b""
     answered = 0
     seen = 0          # bytes of `out` already scanned for a prompt
